@@ -186,7 +186,9 @@ def det_series(Ac, D):
     return tot
 
 
-def h_det(ctx, n, D, P, fn='det'):
+def h_det(ctx, n, D, P, fn='det', scale=None):
+    """scale=k (logdet only): the matrix polynomial is 2**k * B(t), so that det overflows /
+    underflows in floats while logdet(2**k B) = n k ln 2 + logdet(B) is harmless"""
     algopy = symx.load_algopy()
     X = V(ctx, 'A', (D, P, n, n))
     if fn == 'logdet':
@@ -195,7 +197,11 @@ def h_det(ctx, n, D, P, fn='det'):
     else:
         for p in range(P):
             _nonsingular(ctx, X[0, p])
-    A = mk_utpm(ctx, algopy, X)
+    Xin = X
+    if scale is not None:
+        from fractions import Fraction
+        Xin = X * (Fraction(2) ** scale if ctx.mode == 'sym' else 2.0 ** scale)
+    A = mk_utpm(ctx, algopy, Xin)
     z = getattr(algopy, fn)(A)
     Z = plain(z.data)
     ctx.fact(Z.shape == (D, P), 'result shape %s' % (Z.shape,))
@@ -207,10 +213,11 @@ def h_det(ctx, n, D, P, fn='det'):
         else:
             ref = lib.compose(lib.d_log(ctx, ds[0], D - 1), ds, D)
             if ctx.mode == 'float':
-                ctx.eq(Z[0, p], ref[0], 'logdet order 0 dir %d (numeric only)' % p)
+                import math
+                ctx.eq(Z[0, p], ref[0] + (n * scale * math.log(2.0) if scale else 0.0), 'logdet order 0 dir %d (numeric only)' % p)
             for d in range(1, D):
                 ctx.eq(Z[d, p], ref[d], 'logdet order %d dir %d' % (d, p))
-    ctx.eq(plain(A.data), X, 'operand unchanged')
+    ctx.eq(plain(A.data), Xin, 'operand unchanged')
 
 
 def h_expm(ctx, n, D, P):
@@ -284,6 +291,8 @@ def units(tier, seed):
         add('%s/2x2/D5,P1' % fn, 'h_det', n=2, D=5, P=1, fn=fn)
         add('%s/3x3/D%d,P1' % (fn, 3 if tier != 'quick' else 2), 'h_det', n=3, D=3 if tier != 'quick' else 2, P=1, fn=fn)
     add('det/1x1/D3,P2', 'h_det', n=1, D=3, P=2)
+    for k in (520, -520):
+        add('logdet/2x2 entries of magnitude 2**%d/D3,P1' % k, 'h_det', o={'exact_eval': True}, n=2, D=3, P=1, fn='logdet', scale=k)
     add('expm/2x2/D2,P1', 'h_expm', o={'unit_timeout': 600}, n=2, D=2, P=1)
     if tier != 'quick':
         add('expm/2x2/D2,P2', 'h_expm', o={'unit_timeout': 900}, n=2, D=2, P=2)
